@@ -42,6 +42,27 @@ CHECKS = {
  "C12": T("exploration", RM + "metamorphic pairs: the same scripted history with canonical and re-spelled Cache-Control (case, OWS, empty members, quoted arguments, field-line splits, order, extensions) must give identical observation vectors; huge delta-seconds vs 2147483648",
    "Any difference of the per-exchange observation vector between spellings is a violation.",
    "rewrites are meaning-preserving per RFC 9111 5.2; duplicates not generated", "DESIGN.md 4 C12"),
+ "C05": T("exploration", "runtime comparison behind real framing: raw HTTP/1.0 / 1.1 byte scripts over net.Pipe and unencrypted HTTP/2 over loopback through a real net/http client transport; the origin response is snapshotted before the cache sees it and compared field-by-field and byte-by-byte with what comes back from the store (memory, fs, encrypted fs); store writes scanned for hop-by-hop fields; a 304 phase checks merging; race detector on",
+   "Any difference in status, body bytes or the ordered values of an end-to-end field, any extra field, any hop-by-hop field stored or replayed, and any damaged miss body is a violation.",
+   "trailers exercised but not asserted; HTTP/3 absent; header information net/http itself removes (e.g. a Connection header carrying 'close') cannot be judged", "DESIGN.md 4 C05"),
+ "C13": T("fault_enumeration", RM + "scenario oracle over the full grid placement x window x staleness x failure kind (transport error, every status 400-599) x excluding directive; the scripted origin fails the validation and the result is compared with what the statement prescribes",
+   "Inside the window with an eligible failure and no must-revalidate / no-cache the stored response must come back STALE with a correct Age; otherwise the origin's reply or the error.",
+   "staleness within 1 s of N (and within the failure's latency) is not judged", "DESIGN.md 4 C13"),
+ "C14": T("exploration", "model-based runtime checking: every result of Set/Get/Delete/Keys (and of the maintenance HTTP handlers) compared with an in-harness map over adversarial key sets and backend configurations incl. reopen; porcupine linearizability check for concurrent memory-backend histories; disjoint-key concurrency on fs under the race detector",
+   "Any result that differs from the map (wrong bytes, error on a legal key, missing ErrNotExist, wrong listing, aliasing with caller buffers) is a violation.",
+   "keys up to 1000 bytes; keys not addressable through an HTTP path segment are not judged via the API", "DESIGN.md 4 C14"),
+ "C15": T("fault_enumeration", "porcupine linearizability checking of recorded concurrent fs histories with self-describing values (race detector on); child processes whose writes are cut at EVERY byte by RLIMIT_FSIZE; writers killed by timed SIGKILL or strace signal injection at syscall boundaries, with the on-disk states seen recorded; the same cut applied under a real transport",
+   "A Get returning bytes that are not, in full, a value ever Set for the key, an illegal history, or a transport serving a damaged body is a violation.",
+   "process kill is not power loss; strace when=N counts per thread (coverage = recorded disk states)", "DESIGN.md 4 C15"),
+ "C17": T("fault_enumeration", "tamper enumeration on the real backend files (every byte position x masks, every truncation, extensions, block swaps, multi-byte edits) with Get as the oracle; plaintext-window / nonce / ciphertext-equality scan of every file written through every configuration path, also under overlapping writers (race detector on); unusable keys x configuration paths; tampering under a real transport",
+   "A tampered file that yields data, plaintext or a repeated nonce on disk, a wrong key yielding data, or an open without a usable key is a violation.",
+   "whole-file replacement by another key's file is outside the statement", "DESIGN.md 4 C17"),
+ "C19": T("exploration", RM + "footprint monitor on the recording store: a finite request alphabet repeated 4*U*(1+H*V) rounds against origins using Vary ('*', alternating sets), validation, background refresh and unsuccessful POSTs; key count and index sizes compared with explicit bounds at R/4, R/2, R; emptiness after invalidation",
+   "Exceeding U*(1+H*V) keys or H*V index records, or keys left after a successful unsafe request on a store holding only the target's keys, is a violation.",
+   "a leak slower than one record per round would need more rounds", "DESIGN.md 4 C19"),
+ "C20": T("exploration", RM + "scenario oracle over the full grid latency x background outcome x timeout setting x caller context x validators: foreground duration, number and conditionality of background calls, the exact instant the background request is released, goroutines with repository frames after quiescence",
+   "A foreground wait, a call count != 1, a missing validator, a release at another instant than min(timeout, caller context end, reply), a leaked goroutine or a failed foreground is a violation.",
+   "'never answering' observed for 10T+2h virtual", "DESIGN.md 4 C20"),
  "C16": T("exploration", "Go race detector over random histories with background revalidation, plus snapshot comparison of every returned header map at return / quiescence / end of history",
    "Race reports with a repository frame and any change of a returned header map after return are violations.",
    "race detector sees only reached paths; report set varies run to run", "DESIGN.md 4 C16"),
